@@ -32,7 +32,7 @@ def triples(layout):
 
 def make_model(mid, M, eps, U, rot=(), bog=(), layout=None):
     return {"id": mid, "M": M, "eps": list(eps), "U": [list(u) for u in U], "rot": [list(p) for p in rot], "bog": [list(p) for p in bog],
-            "layout": layout or LAYOUTS[M][0], "gf": [], "avg": [], "sus": [], "docc": []}
+            "layout": layout or LAYOUTS[M][0], "gf": [], "avg": [], "sus": [], "docc": [], "chi": []}
 
 
 def catalogue(rng, Ms=(2, 3), per_M=8, transforms=True, prefix="E"):
@@ -89,7 +89,7 @@ def evaluate(models, tag, timeout=1800, workers=8):
     path = os.path.join(pv.OUT, tag + "-models.ndjson")
     with open(path, "w") as f:
         for m in models:
-            f.write(json.dumps({k: m[k] for k in ("id", "M", "eps", "U", "rot", "bog", "gf", "avg", "sus", "docc")}, separators=(",", ":")) + "\n")
+            f.write(json.dumps({k: m[k] for k in ("id", "M", "eps", "U", "rot", "bog", "gf", "avg", "sus", "docc", "chi")}, separators=(",", ":")) + "\n")
     r = pv.run_tlc("LehmannGen", "LehmannGen", workers=workers, env={"MODELS": path}, timeout=timeout, heap="8g")
     return r, {p["id"]: p for p in r.pv}
 
@@ -196,3 +196,67 @@ def sus_tau(pred, terms, beta, tau):
 
 def cplx(p):
     return mp.mpc(mp.mpf(p[0]), mp.mpf(p[1]))
+
+
+# ---------------------------------------------------------------------------------------
+# two-particle Green's function: time-ordered triple integral of the specification's paths
+# an exponent is (e, f) meaning  e + i pi f / beta  (e = integer energy difference, f = integer frequency number); it vanishes iff e = f = 0
+PERMS3 = [(1, 2, 3), (1, 3, 2), (2, 1, 3), (2, 3, 1), (3, 1, 2), (3, 2, 1)]
+PERMSIGN = [1, -1, -1, 1, 1, -1]
+
+
+def _integrate(terms, A, beta):
+    """terms: list of (coef, k, L) meaning coef * t^k * exp(L t); returns the terms of  int_0^T exp(A t) f(t) dt  as a function of T"""
+    out = []
+    for (c_, k, L) in terms:
+        Lp = (L[0] + A[0], L[1] + A[1])
+        if Lp == (0, 0):
+            out.append((c_ / (k + 1), k + 1, (0, 0)))
+        else:
+            lam = mp.mpc(Lp[0], mp.pi * Lp[1] / beta)
+            for j in range(k + 1):
+                out.append((c_ * (-1) ** j * mp.factorial(k) / mp.factorial(k - j) / lam ** (j + 1), k - j, Lp))
+            out.append((-c_ * (-1) ** k * mp.factorial(k) / lam ** (k + 1), 0, (0, 0)))
+    return out
+
+
+def time_ordered_integral(A1, A2, A3, beta):
+    """int_{beta > t1 > t2 > t3 > 0} exp(A1 t1 + A2 t2 + A3 t3); returns a list of (coef, k, (e, f)) to be evaluated at T = beta"""
+    f = [(mp.mpc(1), 0, (0, 0))]
+    f = _integrate(f, A3, beta)      # function of t2
+    f = _integrate(f, A2, beta)      # function of t1
+    f = _integrate(f, A1, beta)      # function of beta
+    return f
+
+
+def chi_value(pred, paths, beta, n1, n2, n3):
+    """chi(n1, n2; n3) from the specification's paths [perm, a, b, c, d, re, im] (numerators over D^4); returns (value, sum of |terms|)"""
+    w, E = weights(pred, beta)
+    D4 = pred["D"] ** 4
+    b = mp.mpf(beta)
+    fr = {1: 2 * n1 + 1, 2: 2 * n2 + 1, 3: -(2 * n3 + 1)}          # c_i(t1): +w1, c_j(t2): +w2, c^+_k(t3): -w3
+    Ei = [int(e) for e in pred["E"]]
+    e0 = min(Ei)
+    val, tot = mp.mpc(0), mp.mpf(0)
+    cache = {}
+    for (pi, a, bb, cc, d, re, im) in paths:
+        p = PERMS3[pi - 1]
+        key = (pi, Ei[a] - Ei[bb], Ei[bb] - Ei[cc], Ei[cc] - Ei[d])
+        if key not in cache:
+            A1 = (key[1], fr[p[0]])
+            A2 = (key[2], fr[p[1]])
+            A3 = (key[3], fr[p[2]])
+            cache[key] = time_ordered_integral(A1, A2, A3, b)
+        # evaluate at T = beta with the weight folded in:  w_a e^{beta e} = exp(-beta (E_a - E_0 - e)) / Z  (no overflow)
+        s = mp.mpc(0)
+        un = mp.e ** (-b * (Ei[a] - e0))
+        Z = un / w[a] if w[a] != 0 else None
+        for (c_, k, L) in cache[key]:
+            ew = mp.e ** (-b * (Ei[a] - e0 - L[0])) / (Z if Z is not None else 1)
+            if Z is None:
+                ew = mp.mpf(0)
+            s += c_ * b ** k * ew * (-1) ** (L[1] % 2)
+        t = PERMSIGN[pi - 1] * mp.mpc(re, im) / D4 * s
+        val += t
+        tot += abs(t)
+    return val, tot
